@@ -38,6 +38,9 @@ ChooseSpec ==
   /\ \E sk \in BOOLEAN :
        \/ \E d \in 1..NDim(in.a) : \E k \in {"name", "pos", "neg"} : in' = [in EXCEPT !.spec = [k |-> k, dims |-> <<d>>], !.skipna = sk]
        \/ \E p \in Perms(1..NDim(in.a)) : in' = [in EXCEPT !.spec = [k |-> "tuple", dims |-> p], !.skipna = sk]
+       \* tuples of some of the dimensions, in any order - one-element tuples included
+       \/ \E m \in 1..(NDim(in.a) - 1) : \E p \in {q \in [1..m -> 1..NDim(in.a)] : \A i, j \in 1..m : i # j => q[i] # q[j]} :
+             in' = [in EXCEPT !.spec = [k |-> "tuple", dims |-> p], !.skipna = sk]
        \/ in' = [in EXCEPT !.spec = [k |-> "none", dims |-> [i \in 1..NDim(in.a) |-> i]], !.skipna = sk]
 
 Apply ==
